@@ -166,6 +166,9 @@ type Sim struct {
 
 	pilotCalls []string
 	stmtFailHit bool
+	crashInc    string // armed: incarnation inside a switchover attempt
+	crashCount  int
+	crashDone   bool
 	bHist      *[]*dcsHist
 }
 
